@@ -1,7 +1,9 @@
 /-
   C11 — intercepted flows are held until resumed, killed flows are never forwarded.
   Theorems about `Model/C11.lean`, for ALL schedules of message arrivals and hook completions (any number of
-  messages, any verdicts), all protocol kinds, and all sequences of intercept/resume/kill/hook operations.
+  messages, any verdicts), all protocol kinds, and all sequences of intercept/resume/kill/hook operations; and about
+  their product (`prun`), in which a hook completion reaches the layer only after the hook task has returned from
+  `wait_for_resume`: `intercepted_message_held` is the clause "while a flow is intercepted nothing of it is sent".
 -/
 import MitmVerif.Model.C11
 namespace MitmVerif.Props.C11
@@ -391,12 +393,13 @@ private theorem run_wf (k : Kind) : ∀ (ins : List In) (s : L) (rest : List Nat
       | close kl gn => simpa only [hh, arrivals] using hn
     simpa [run] using run_wf k is (step k s i).1 rest hw1 hn1
 
-/-- **kill forwards nothing and errors** — whole-history form, for the layers whose send-after-hook step consults the
-    kill (HTTP, DNS queries): in EVERY history from the initial state with distinct message ids, if the flow is killed
+/-- **kill forwards nothing and errors** — whole-history form, PARTIAL: only for the layers whose send-after-hook step
+    consults the kill (HTTP, DNS queries; 2 of the 6 kinds — for the other four the clause is false, see `_iff` and
+    `_counterexample`).  (Named `kill_forwards_nothing_and_errors` before round 6; renamed, statement unchanged.) in EVERY history from the initial state with distinct message ids, if the flow is killed
     while the hook of message `m` is pending, then `m` is never sent — not before (it was held), not when the hook
     completes, not afterwards, whatever else arrives — and the flow ends with an error.  No hypothesis on the state:
     well-formedness and distinctness of what is held are derived from the history. -/
-theorem kill_forwards_nothing_and_errors (k : Kind) (hk : k.honoursKill = true) (ins1 ins2 : List In) (m : Msg)
+theorem kill_forwards_nothing_and_errors_history_partial (k : Kind) (hk : k.honoursKill = true) (ins1 ins2 : List In) (m : Msg)
     (v : Verdict) (hv : v.killed = true) (hp : (run k {} ins1).1.paused = some m)
     (hn : (arrivals (ins1 ++ .complete v :: ins2)).Nodup) :
     (∀ c, Out.send m.id c ∉ (run k {} (ins1 ++ .complete v :: ins2)).2) ∧
@@ -437,7 +440,7 @@ theorem kill_forwards_nothing_and_errors_iff (k : Kind) :
       cases k <;> simp [Kind.honoursKill] at hk <;> exact this (by decide)
     · rfl
   · intro hk ins1 ins2 m v hv hp hn
-    exact kill_forwards_nothing_and_errors k hk ins1 ins2 m v hv hp hn
+    exact kill_forwards_nothing_and_errors_history_partial k hk ins1 ins2 m v hv hp hn
 
 /-- TCP, UDP, WebSocket messages and DNS answers are forwarded although the flow was killed while intercepted -/
 theorem kill_forwards_nothing_and_errors_counterexample :
@@ -575,6 +578,375 @@ theorem resume_or_kill_releases (ops : List Op) :
         have := (h2 _ ht rfl).2; rw [he] at this; cases this
       | some b => simp [stepA, hk, F.kill, he, wake] at ht
 
+-- ------------------------------------------------------------------------------------------------
+-- the product L × A: `complete` only when the hook task is done
+
+/-- the layer component of a product step is a layer step on the input `lin` lets through (or no step) -/
+theorem pstep_layer (k : Kind) (pol : Nat → Bool) (s : S) (i : PIn) :
+    ((pstep k pol s i).1.l, (pstep k pol s i).2) =
+      (match lin s i with | none => (s.l, []) | some x => step k s.l x) := by
+  unfold pstep
+  cases hl : lin s i with
+  | none => cases i <;> simp_all [userStep, lin]
+  | some x =>
+    simp only
+    cases newHook s.l x <;> simp [startHook]
+
+private theorem parrivals_cons (i : PIn) (is : List PIn) :
+    parrivals (i :: is) = (match i with | .arrive m => [m.id] | _ => []) ++ parrivals is := by
+  cases i <;> simp [parrivals]
+
+/-- **the product refines the layer model**: the layer component and the outputs of every product run are those of a
+    layer run over the inputs the product let through — same arrivals, and a `complete` only where `deliver` was
+    enabled.  Hence every theorem about `run` holds of product runs. -/
+theorem prun_refines_run (k : Kind) (pol : Nat → Bool) : ∀ (ins : List PIn) (s : S),
+    ∃ ins' : List In, arrivals ins' = parrivals ins ∧
+      run k s.l ins' = ((prun k pol s ins).1.l, (prun k pol s ins).2) := by
+  intro ins
+  induction ins with
+  | nil => intro s; exact ⟨[], rfl, rfl⟩
+  | cons i is ih =>
+    intro s
+    obtain ⟨ins', ha, hr⟩ := ih (pstep k pol s i).1
+    have hp := pstep_layer k pol s i
+    cases hl : lin s i with
+    | none =>
+      rw [hl] at hp
+      simp only [Prod.mk.injEq] at hp
+      refine ⟨ins', ?_, ?_⟩
+      · rw [ha, parrivals_cons]
+        cases i <;> simp_all [lin]
+      · simp only [prun]
+        rw [← hp.1, hr, hp.2]; rfl
+    | some x =>
+      rw [hl] at hp
+      simp only at hp
+      refine ⟨x :: ins', ?_, ?_⟩
+      · rw [parrivals_cons]
+        cases i <;> simp only [lin] at hl
+        · cases hl; simp [arrivals, ha]
+        · split at hl
+          · cases hl; simp [arrivals, ha]
+          · cases hl
+        · cases hl; simp [arrivals, ha]
+        all_goals cases hl
+      · simp only [run, prun]
+        have h1 : (step k s.l x).1 = (pstep k pol s i).1.l := by rw [← hp]
+        have h2 : (step k s.l x).2 = (pstep k pol s i).2 := by rw [← hp]
+        rw [h1, hr, h2]
+
+
+/-- the flow component of a product step is at most one flow operation (a hook start or a user action) -/
+theorem pstep_flow (k : Kind) (pol : Nat → Bool) (s : S) (i : PIn) :
+    (pstep k pol s i).1.a = s.a ∨ ∃ op, (pstep k pol s i).1.a = stepA s.a op := by
+  unfold pstep
+  cases hl : lin s i with
+  | none => cases i <;> simp [userStep] <;> exact Or.inr ⟨_, rfl⟩
+  | some x =>
+    simp only
+    cases newHook s.l x with
+    | none => exact Or.inl rfl
+    | some n => exact Or.inr ⟨.hook (pol n.id), rfl⟩
+
+/-- **the product refines the flow model**: the flow component of every product run is reached by a sequence of
+    `Flow` operations.  Hence every theorem about `runA` holds of product runs. -/
+theorem prun_refines_runA (k : Kind) (pol : Nat → Bool) : ∀ (ins : List PIn) (s : S),
+    ∃ ops : List Op, (prun k pol s ins).1.a = runA s.a ops := by
+  intro ins
+  induction ins with
+  | nil => intro s; exact ⟨[], rfl⟩
+  | cons i is ih =>
+    intro s
+    obtain ⟨ops, h⟩ := ih (pstep k pol s i).1
+    simp only [prun]
+    rcases pstep_flow k pol s i with he | ⟨op, he⟩
+    · exact ⟨ops, by rw [h, he]⟩
+    · exact ⟨op :: ops, by rw [h, he]; rfl⟩
+
+/-- every reachable product state: the flow explains every blocked hook (`J`) -/
+theorem prun_J (k : Kind) (pol : Nat → Bool) (ins : List PIn) : J (prun k pol {} ins).1.a := by
+  obtain ⟨ops, h⟩ := prun_refines_runA k pol ins {}
+  rw [h]; exact waiting_only_while_intercepted ops
+
+
+/-- **nothing is sent unless the hook task has completed** (step form of the composition): in every product state
+    and for every input, a `send` is emitted only by a `deliver` that was ENABLED — the hook task of the pending message
+    had returned from `wait_for_resume` — for exactly that message, with the content the flow object holds then. -/
+theorem send_requires_released_hook (k : Kind) (pol : Nat → Bool) (s : S) (i : PIn) (id c : Nat)
+    (h : Out.send id c ∈ (pstep k pol s i).2) :
+    i = .deliver ∧ s.a.tasks.getLast? = some Task.done ∧ (∃ m, s.l.paused = some m ∧ m.id = id) ∧ c = s.cur := by
+  have hp := pstep_layer k pol s i
+  cases hl : lin s i with
+  | none =>
+    rw [hl] at hp; simp only [Prod.mk.injEq] at hp
+    rw [hp.2] at h; cases h
+  | some x =>
+    rw [hl] at hp; simp only at hp
+    have h2 : (step k s.l x).2 = (pstep k pol s i).2 := by rw [← hp]
+    rw [← h2] at h
+    obtain ⟨m, v, hm, hid, hx, hc⟩ := held_while_intercepted k s.l x id c h
+    subst hx
+    cases i <;> simp only [lin] at hl
+    · cases hl
+    · split at hl
+      · rename_i hc'
+        cases hl
+        simp only [Bool.and_eq_true, beq_iff_eq] at hc'
+        exact ⟨rfl, hc'.2, ⟨m, hm, hid⟩, hc⟩
+      · cases hl
+    all_goals cases hl
+
+/-- a hook task that starts while the addon intercepts the flow, or while the flow is intercepted already, blocks -/
+theorem intercepting_hook_blocks (a : A) (hJ : J a) (ai : Bool) (h : ai = true ∨ a.f.intercepted = true) :
+    (stepA a (.hook ai)).tasks.getLast? = some Task.waiting ∧ (stepA a (.hook ai)).f.intercepted = true := by
+  obtain ⟨h1, _⟩ := hJ
+  cases ai <;> cases hi : a.f.intercepted <;> cases he : a.f.event <;> simp_all [stepA, F.wait, F.intercept] <;>
+    (try (rename_i b; cases b <;> simp_all))
+
+/-- while the pending hook's task is blocked, every input except `resume`/`kill` leaves the message pending, the task
+    blocked, and emits nothing at all -/
+theorem blocked_step (k : Kind) (pol : Nat → Bool) (s : S) (m : Msg) (hp : s.l.paused = some m)
+    (hw : s.a.tasks.getLast? = some Task.waiting) (i : PIn) (hr : i ≠ .resume) (hk : i ≠ .kill) :
+    (pstep k pol s i).1.l.paused = some m ∧ (pstep k pol s i).1.a.tasks.getLast? = some Task.waiting ∧
+    (pstep k pol s i).2 = [] := by
+  cases i with
+  | resume => exact absurd rfl hr
+  | kill => exact absurd rfl hk
+  | arrive n => simp [pstep, lin, newHook, step, hp, hw]
+  | deliver => simp [pstep, lin, hw, userStep, hp]
+  | close kl gn => simp [pstep, lin, newHook, step, hp, hw]
+  | intercept => simp [pstep, lin, userStep, hp, stepA, hw]
+  | edit c => simp [pstep, lin, userStep, hp, hw]
+  | drop => simp [pstep, lin, userStep, hp, hw]
+
+
+private theorem prun_append (k : Kind) (pol : Nat → Bool) : ∀ (a b : List PIn) (s : S),
+    prun k pol s (a ++ b) = ((prun k pol (prun k pol s a).1 b).1, (prun k pol s a).2 ++ (prun k pol (prun k pol s a).1 b).2)
+  | [], b, s => by simp [prun]
+  | i :: a, b, s => by
+    simp only [List.cons_append, prun]
+    rw [prun_append k pol a b]
+    simp [List.append_assoc]
+
+private theorem blocked_run (k : Kind) (pol : Nat → Bool) (m : Msg) : ∀ (ins : List PIn) (s : S),
+    s.l.paused = some m → s.a.tasks.getLast? = some Task.waiting → (∀ i ∈ ins, i ≠ .resume ∧ i ≠ .kill) →
+    (prun k pol s ins).1.l.paused = some m ∧ (prun k pol s ins).1.a.tasks.getLast? = some Task.waiting ∧
+    (prun k pol s ins).2 = [] := by
+  intro ins
+  induction ins with
+  | nil => intro s hp hw _; exact ⟨hp, hw, rfl⟩
+  | cons i is ih =>
+    intro s hp hw hu
+    obtain ⟨a, b, c⟩ := blocked_step k pol s m hp hw i (hu i (by simp)).1 (hu i (by simp)).2
+    obtain ⟨a', b', c'⟩ := ih _ a b (fun j hj => hu j (by simp [hj]))
+    simp only [prun]
+    exact ⟨a', b', by rw [c, c']; rfl⟩
+
+/-- **While a flow is intercepted, nothing of the intercepted message is sent** — over histories of the composed
+    system.  Take ANY history `ins1` (arrivals with distinct ids, deliveries, closes, user actions, edits) after which
+    message `m`'s hook is pending and its hook task is blocked in `wait_for_resume`, and continue with ANY inputs `ins2`
+    that contain no `resume` and no `kill` (more arrivals, delivery attempts, closes, edits, further `intercept`s): then
+    `m` is still pending, its task still blocked, the flow is (still) intercepted, `m` has never been sent — neither
+    during `ins1` nor during `ins2` — and `ins2` produced no output whatsoever for this flow's layer. -/
+theorem intercepted_message_held (k : Kind) (pol : Nat → Bool) (ins1 ins2 : List PIn) (m : Msg)
+    (hn : (parrivals ins1).Nodup)
+    (hp : (prun k pol {} ins1).1.l.paused = some m)
+    (hw : (prun k pol {} ins1).1.a.tasks.getLast? = some Task.waiting)
+    (hu : ∀ i ∈ ins2, i ≠ .resume ∧ i ≠ .kill) :
+    (prun k pol {} (ins1 ++ ins2)).1.l.paused = some m ∧
+    (prun k pol {} (ins1 ++ ins2)).1.a.tasks.getLast? = some Task.waiting ∧
+    (prun k pol {} (ins1 ++ ins2)).1.a.f.intercepted = true ∧
+    (∀ c, Out.send m.id c ∉ (prun k pol {} (ins1 ++ ins2)).2) ∧
+    (prun k pol {} (ins1 ++ ins2)).2 = (prun k pol {} ins1).2 := by
+  obtain ⟨a, b, c⟩ := blocked_run k pol m ins2 _ hp hw hu
+  have hJ := prun_J k pol (ins1 ++ ins2)
+  rw [prun_append] at hJ ⊢
+  simp only [c, List.append_nil]
+  refine ⟨a, b, ?_, ?_, trivial⟩
+  · have hmem : Task.waiting ∈ (prun k pol (prun k pol {} ins1).1 ins2).1.a.tasks :=
+      List.mem_of_getLast? b
+    exact (hJ.2 _ hmem rfl).1
+  · intro cc hc
+    obtain ⟨ins', ha, hr⟩ := prun_refines_run k pol ins1 {}
+    have hr1 : (run k {} ins').1 = (prun k pol {} ins1).1.l := by rw [hr]
+    have hr2 : (run k {} ins').2 = (prun k pol {} ins1).2 := by rw [hr]
+    have hheld : m.id ∈ held (run k {} ins').1 := by rw [hr1]; simp [held, hp]
+    exact held_never_sent k ins' (by rw [ha]; exact hn) m.id hheld cc (by rw [hr2]; exact hc)
+
+/-- the same in the shape "intercepted at the end ⇒ never sent": after ANY history with distinct message ids, if a
+    message's hook is pending and its task blocked, then the flow is intercepted and the message has not been sent -/
+theorem intercepted_at_end_not_sent (k : Kind) (pol : Nat → Bool) (ins : List PIn) (m : Msg)
+    (hn : (parrivals ins).Nodup) (hp : (prun k pol {} ins).1.l.paused = some m)
+    (hw : (prun k pol {} ins).1.a.tasks.getLast? = some Task.waiting) :
+    (prun k pol {} ins).1.a.f.intercepted = true ∧ ∀ c, Out.send m.id c ∉ (prun k pol {} ins).2 := by
+  have h := intercepted_message_held k pol ins [] m hn hp hw (by simp)
+  simp only [List.append_nil] at h
+  exact ⟨h.2.2.1, h.2.2.2.1⟩
+
+
+private theorem newHook_paused (k : Kind) (l : L) (x : In) (n : Msg) (h : newHook l x = some n) :
+    (step k l x).1.paused = some n ∧ Out.hook n.id ∈ (step k l x).2 := by
+  cases x with
+  | arrive m =>
+    cases hp : l.paused <;> simp [newHook, hp] at h
+    subst h; simp [step, hp]
+  | complete v =>
+    cases hp : l.paused with
+    | none => simp [newHook, hp] at h
+    | some m =>
+      cases hq : l.queue with
+      | nil => simp [newHook, hp, hq] at h
+      | cons a q =>
+        simp [newHook, hp, hq] at h
+        subst h; simp [step, hp, hq]
+  | close a b => simp [newHook] at h
+
+/-- **an intercepted message is held**: in every reachable state of the composed system, whenever the hook of a message
+    `n` fires (on arrival, or when the previous hook's completion releases it from the queue) while the Intercept addon
+    intercepts it or the flow is already intercepted, then after that step `n` is the pending message, its hook task is
+    blocked and the flow is intercepted — the premise of `intercepted_message_held`. -/
+theorem intercepted_hook_is_held (k : Kind) (pol : Nat → Bool) (ins : List PIn) (i : PIn) (x : In) (n : Msg)
+    (hx : lin (prun k pol {} ins).1 i = some x) (hh : newHook (prun k pol {} ins).1.l x = some n)
+    (hi : pol n.id = true ∨ (prun k pol {} ins).1.a.f.intercepted = true) :
+    (pstep k pol (prun k pol {} ins).1 i).1.l.paused = some n ∧
+    (pstep k pol (prun k pol {} ins).1 i).1.a.tasks.getLast? = some Task.waiting ∧
+    (pstep k pol (prun k pol {} ins).1 i).1.a.f.intercepted = true ∧
+    Out.hook n.id ∈ (pstep k pol (prun k pol {} ins).1 i).2 := by
+  have hJ := prun_J k pol ins
+  generalize (prun k pol {} ins).1 = s at *
+  obtain ⟨b1, b2⟩ := intercepting_hook_blocks s.a hJ (pol n.id) hi
+  obtain ⟨c1, c2⟩ := newHook_paused k s.l x n hh
+  simp only [pstep, hx, hh, startHook]
+  exact ⟨c1, b1, b2, c2⟩
+
+/-- the readable special case: a message arriving at an idle layer while the flow is (or gets) intercepted -/
+theorem intercepted_arrival_is_held (k : Kind) (pol : Nat → Bool) (ins : List PIn) (m : Msg)
+    (hp : (prun k pol {} ins).1.l.paused = none)
+    (hi : pol m.id = true ∨ (prun k pol {} ins).1.a.f.intercepted = true) :
+    (prun k pol {} (ins ++ [.arrive m])).1.l.paused = some m ∧
+    (prun k pol {} (ins ++ [.arrive m])).1.a.tasks.getLast? = some Task.waiting ∧
+    (prun k pol {} (ins ++ [.arrive m])).1.a.f.intercepted = true := by
+  have h := intercepted_hook_is_held k pol ins (.arrive m) (.arrive m) m rfl (by simp [newHook, hp]) hi
+  rw [prun_append]
+  simp only [prun]
+  exact ⟨h.1, h.2.1, h.2.2.1⟩
+
+private theorem stepA_tasks_ne (a : A) (op : Op) (h : a.tasks ≠ []) : (stepA a op).tasks ≠ [] := by
+  cases op with
+  | hook ai => simp [stepA]
+  | intercept => simpa [stepA] using h
+  | resume => simp only [stepA, wake]; split <;> simpa using h
+  | kill =>
+    simp only [stepA]
+    split
+    · simp only [wake]; split <;> simpa using h
+    · exact h
+
+private theorem tasks_step (k : Kind) (pol : Nat → Bool) (s : S) (i : PIn)
+    (h : s.l.paused.isSome = true → s.a.tasks ≠ []) :
+    (pstep k pol s i).1.l.paused.isSome = true → (pstep k pol s i).1.a.tasks ≠ [] := by
+  unfold pstep
+  cases hl : lin s i with
+  | none =>
+    cases i <;> simp only [userStep] <;> intro hp <;> first | exact h hp | exact stepA_tasks_ne _ _ (h hp)
+  | some x =>
+    simp only
+    cases hh : newHook s.l x with
+    | some n => intro _; simp [startHook, stepA]
+    | none =>
+      simp only
+      intro hp
+      apply h
+      cases x with
+      | arrive m =>
+        cases hq : s.l.paused with
+        | none => simp [newHook, hq] at hh
+        | some _ => rfl
+      | complete v =>
+        cases hq : s.l.paused with
+        | none => simp [step, hq] at hp
+        | some m =>
+          cases hq2 : s.l.queue with
+          | nil => simp [step, hq, hq2] at hp
+          | cons a q => simp [newHook, hq, hq2] at hh
+      | close a b => simpa [step] using hp
+
+/-- in every reachable state a pending hook has a task -/
+theorem prun_tasks (k : Kind) (pol : Nat → Bool) : ∀ (ins : List PIn) (s : S),
+    (s.l.paused.isSome = true → s.a.tasks ≠ []) →
+    (prun k pol s ins).1.l.paused.isSome = true → (prun k pol s ins).1.a.tasks ≠ [] := by
+  intro ins
+  induction ins with
+  | nil => intro s h; exact h
+  | cons i is ih => intro s h; simp only [prun]; exact ih _ (tasks_step k pol s i h)
+
+private theorem getLast_done (ts : List Task) (hne : ts ≠ []) (h : ∀ t ∈ ts, t = Task.done) :
+    ts.getLast? = some Task.done := by
+  cases hl : ts.getLast? with
+  | none => simp [List.getLast?_eq_none_iff] at hl; exact absurd hl hne
+  | some t => rw [h t (List.mem_of_getLast? hl)]
+
+/-- **resume and kill enable exactly the delivery of the pending hook's completion.**  In every reachable state with a
+    message `m` pending (blocked or not): after `resume`, `deliver` is enabled and hands the layer the completion with
+    the verdict read off the flow and the message NOW — not killed unless the flow has an error, the content the flow
+    object holds (the user's edits), the drop flag; after `kill` (flow killable) the same with `killed = true`.  What
+    the layer then does is `step … (.complete v)`: `resume_forwards_edited`, `kill_forwards_nothing_and_errors_partial`. -/
+theorem resume_or_kill_enables_delivery (k : Kind) (pol : Nat → Bool) (ins : List PIn) (m : Msg)
+    (hp : (prun k pol {} ins).1.l.paused = some m) :
+    let s := (prun k pol {} ins).1
+    (lin (pstep k pol s .resume).1 .deliver = some (.complete ⟨s.a.f.error, s.dropped, s.cur⟩) ∧
+      (pstep k pol (pstep k pol s .resume).1 .deliver).2 = (step k s.l (.complete ⟨s.a.f.error, s.dropped, s.cur⟩)).2) ∧
+    (s.a.f.killable = true →
+      lin (pstep k pol s .kill).1 .deliver = some (.complete ⟨true, s.dropped, s.cur⟩) ∧
+      (pstep k pol (pstep k pol s .kill).1 .deliver).2 = (step k s.l (.complete ⟨true, s.dropped, s.cur⟩)).2) := by
+  intro s
+  obtain ⟨ops, ho⟩ := prun_refines_runA k pol ins {}
+  have hne : s.a.tasks ≠ [] := prun_tasks k pol ins {} (by simp) (by simp [hp])
+  have hrel := resume_or_kill_releases ops
+  have hs : s.a = runA {} ops := ho
+  have hp' : s.l.paused = some m := hp
+  have e1 : (pstep k pol s .resume).1 = { s with a := stepA s.a .resume } := by simp [pstep, lin, userStep]
+  have e2 : (pstep k pol s .kill).1 = { s with a := stepA s.a .kill } := by simp [pstep, lin, userStep]
+  have r1 : stepA s.a .resume = runA {} (ops ++ [.resume]) := by
+    rw [hs]; simp [runA, List.foldl_append]
+  have r2 : stepA s.a .kill = runA {} (ops ++ [.kill]) := by
+    rw [hs]; simp [runA, List.foldl_append]
+  constructor
+  · have hd : (stepA s.a .resume).tasks.getLast? = some Task.done :=
+      getLast_done _ (stepA_tasks_ne _ _ hne) (by rw [r1]; exact hrel.1)
+    have hf : (stepA s.a .resume).f.error = s.a.f.error := by
+      simp only [stepA, F.resume]; split <;> rfl
+    have hl : lin { s with a := stepA s.a .resume } .deliver = some (.complete ⟨s.a.f.error, s.dropped, s.cur⟩) := by
+      simp [lin, hp', hd, hf]
+    rw [e1]
+    refine ⟨hl, ?_⟩
+    have := pstep_layer k pol { s with a := stepA s.a .resume } .deliver
+    rw [hl] at this
+    simp only at this
+    rw [← this]
+  · intro hk
+    have hd : (stepA s.a .kill).tasks.getLast? = some Task.done :=
+      getLast_done _ (stepA_tasks_ne _ _ hne) (by rw [r2]; exact hrel.2 (by rw [← hs]; exact hk))
+    have hf : (stepA s.a .kill).f.error = true := by
+      simp [stepA, hk, F.kill]
+    have hl : lin { s with a := stepA s.a .kill } .deliver = some (.complete ⟨true, s.dropped, s.cur⟩) := by
+      simp [lin, hp', hd, hf]
+    rw [e2]
+    refine ⟨hl, ?_⟩
+    have := pstep_layer k pol { s with a := stepA s.a .kill } .deliver
+    rw [hl] at this
+    simp only at this
+    rw [← this]
+
+/-- **resume forwards the held message once** in the composed system: every message is forwarded at most once in
+    every history with distinct ids (lifted from `resume_forwards_once` through `prun_refines_run`) -/
+theorem product_forwards_once (k : Kind) (pol : Nat → Bool) (ins : List PIn) (hn : (parrivals ins).Nodup) (id : Nat) :
+    ((prun k pol {} ins).2.filter (Out.isSendOf id)).length ≤ 1 := by
+  obtain ⟨ins', ha, hr⟩ := prun_refines_run k pol ins {}
+  have hr2 : (run k {} ins').2 = (prun k pol {} ins).2 := by rw [hr]
+  rw [← hr2]
+  exact resume_forwards_once k ins' (by rw [ha]; exact hn) id
+
 -- non-vacuity / the model is not constant ---------------------------------------------------------
 example : (run .http {} [.arrive ⟨1, 5⟩, .arrive ⟨2, 6⟩, .complete ⟨false, false, 9⟩]).2
     = [.hook 1, .send 1 9, .hook 2] := by decide
@@ -618,7 +990,7 @@ example : Kind.dnsReq.honoursKill = true ∧
     (run .dnsReq {} [.arrive ⟨1, 5⟩, .arrive ⟨2, 6⟩]).1.paused = some ⟨1, 5⟩ ∧
     (held (run .dnsReq {} [.arrive ⟨1, 5⟩, .arrive ⟨2, 6⟩]).1 ++ arrivals [.arrive ⟨3, 7⟩, .complete ⟨false, false, 6⟩]).Nodup := by decide
 
-/-- `kill_forwards_nothing_and_errors` (whole history): hypotheses and conclusion on a history with traffic before and
+/-- `kill_forwards_nothing_and_errors_history_partial` (whole history): hypotheses and conclusion on a history with traffic before and
     after the kill -/
 example : (run .http {} [.arrive ⟨1, 5⟩, .arrive ⟨2, 6⟩]).1.paused = some ⟨1, 5⟩ ∧
     (arrivals ([.arrive ⟨1, 5⟩, .arrive ⟨2, 6⟩] ++ In.complete ⟨true, false, 5⟩ :: [.arrive ⟨3, 7⟩, .complete ⟨false, false, 6⟩])).Nodup ∧
@@ -647,5 +1019,27 @@ example : (runA {} [.hook true, .hook false]).f.killable = true ∧
     (runA {} [.hook true, .hook false, .kill]).f.killable = false ∧
     (runA {} ([.hook true, .resume] ++ [.resume])).tasks = [.done] ∧
     (runA {} ([.hook true, .kill] ++ [.hook true])).tasks = [.done, .waiting] := by decide
+
+-- the composed system (round 6): non-vacuity ----------------------------------------------------------------------
+-- an intercepted message: delivery attempts, further arrivals and edits produce nothing
+example : (prun .http (fun _ => true) {} [.arrive ⟨1, 5⟩, .deliver, .arrive ⟨2, 6⟩, .edit 9, .deliver]).2 = [.hook 1] := by decide
+-- the hypotheses of `intercepted_message_held` hold after that history (pending, task blocked, flow intercepted)
+example : (prun .http (fun _ => true) {} [.arrive ⟨1, 5⟩, .deliver, .arrive ⟨2, 6⟩]).1.l.paused = some ⟨1, 5⟩ ∧
+    (prun .http (fun _ => true) {} [.arrive ⟨1, 5⟩, .deliver, .arrive ⟨2, 6⟩]).1.a.tasks.getLast? = some Task.waiting ∧
+    (prun .http (fun _ => true) {} [.arrive ⟨1, 5⟩, .deliver, .arrive ⟨2, 6⟩]).1.a.f.intercepted = true := by decide
+-- resume: the edited content is forwarded, once, and the queued message's hook fires (and blocks in turn)
+example : (prun .tcp (fun _ => true) {} [.arrive ⟨1, 5⟩, .arrive ⟨2, 6⟩, .edit 9, .resume, .deliver, .deliver]).2
+    = [.hook 1, .send 1 9, .hook 2] := by decide
+-- kill: HTTP ends with an error and sends nothing; TCP forwards the message (finding F-C11a, as in the layer model)
+example : (prun .http (fun _ => true) {} [.arrive ⟨1, 5⟩, .kill, .deliver]).2 = [.hook 1, .error 1] := by decide
+example : (prun .tcp (fun _ => true) {} [.arrive ⟨1, 5⟩, .kill, .deliver]).2 = [.hook 1, .send 1 5] := by decide
+-- not intercepted: the hook task is done at once, the first `deliver` forwards
+example : (prun .tcp (fun _ => false) {} [.arrive ⟨1, 5⟩, .deliver]).2 = [.hook 1, .send 1 5] := by decide
+-- the hypothesis "task blocked" matters: an `intercept` AFTER wait_for_resume returned does not hold the message
+example : (prun .tcp (fun _ => false) {} [.arrive ⟨1, 5⟩, .intercept, .deliver]).2 = [.hook 1, .send 1 5] ∧
+    (prun .tcp (fun _ => false) {} [.arrive ⟨1, 5⟩, .intercept]).1.a.f.intercepted = true ∧
+    (prun .tcp (fun _ => false) {} [.arrive ⟨1, 5⟩, .intercept]).1.a.tasks.getLast? = some Task.done := by decide
+-- a user `intercept` before the message arrives holds it although the addon would not intercept
+example : (prun .udp (fun _ => false) {} [.intercept, .arrive ⟨1, 5⟩, .deliver]).2 = [.hook 1] := by decide
 
 end MitmVerif.Props.C11
